@@ -162,15 +162,17 @@ macro_rules! impl_bop {
             /// Computes the opinion on the logical conjunction of `self` and `rhs`.
             pub fn mul(&self, rhs: &Self) -> Self {
                 let a = self.base_rate * rhs.base_rate;
+                // 1 - a_x a_y without cancellation when both base rates are close to 1
+                let ra = (1.0 - self.base_rate) + self.base_rate * (1.0 - rhs.base_rate);
                 let b = self.b() * rhs.b()
                     + ((1.0 - self.base_rate) * rhs.base_rate * self.b() * rhs.u()
                         + (1.0 - rhs.base_rate) * self.base_rate * rhs.b() * self.u())
-                        / (1.0 - a);
+                        / ra;
                 let d = self.d() + rhs.d() - self.d() * rhs.d();
                 let u = self.u() * rhs.u()
                     + ((1.0 - rhs.base_rate) * self.b() * rhs.u()
                         + (1.0 - self.base_rate) * rhs.b() * self.u())
-                        / (1.0 - a);
+                        / ra;
                 Self::new(b, d, u, a)
             }
 
